@@ -320,6 +320,37 @@ theorem C15_565_repaired (c : Codec) (hc : c = fixedRGB565 ∨ c = fixedBGR565) 
       words_of_same fixedBGR565 [.var 0, .var 1] (by decide) (by decide +kernel) [x, y] hb,
       idem_of_same fixedBGR565 (by decide) (by decide +kernel) p hp⟩
 
+/-! ## Whole frames -/
+
+/-- **Every frame's pixels**: for each lawful writable format, encoding an RGBA array of bytes with
+`save_<fmt>` and decoding the result with `load_<fmt>` gives the array with every pixel replaced by
+its documented quantisation (for the 8-bit formats: the array itself, up to the channels the
+format does not store), and encoding that again gives the same bytes. -/
+theorem C15_frame_roundtrip (i : Nat) (hi : i ∈ lawfulInds) (px : List Nat) (hpx : ∀ b ∈ px, b < 256) :
+    loadImg (codecOf i) (saveImg (codecOf i) px) = quantImg i px ∧
+    saveImg (codecOf i) (loadImg (codecOf i) (saveImg (codecOf i) px)) = saveImg (codecOf i) px := by
+  have hn : 0 < (codecOf i).save.length := by
+    simp only [lawfulInds, List.mem_cons, List.mem_nil_iff, or_false] at hi
+    rcases hi with rfl | rfl | rfl | rfl | rfl | rfl | rfl | rfl | rfl | rfl | rfl | rfl | rfl |
+      rfl | rfl | rfl | rfl | rfl <;> decide
+  have hv : ∀ q ∈ chunks 4 px, (Px.ofList q).valid := fun q hq =>
+    ofList_valid q (fun b hb => hpx b (mem_of_mem_chunks 4 px q b hq hb))
+  have hload : loadImg (codecOf i) (saveImg (codecOf i) px) = quantImg i px := by
+    unfold loadImg saveImg quantImg
+    rw [chunks_flatMap _ hn _ _ (fun q _ => by simp [saveF]), List.flatMap_map]
+    apply flatMap_congr'
+    intro q hq
+    rw [C15_roundtrip i hi _ (hv q hq)]
+  refine ⟨hload, ?_⟩
+  rw [hload]
+  unfold saveImg quantImg
+  rw [chunks_flatMap 4 (by decide) _ _ (fun q _ => by simp [Px.toList]), List.flatMap_map]
+  apply flatMap_congr'
+  intro q hq
+  have e : Px.ofList (quant i (Px.ofList q)).toList = quant i (Px.ofList q) := rfl
+  rw [e, ← C15_roundtrip i hi _ (hv q hq)]
+  exact C15_idempotent i hi _ (hv q hq)
+
 /-! ## Mipmaps -/
 
 /-- The chain `VTF.__init__` creates for a `2^a × 2^b` texture has `min a b + 1` levels, level `k`
